@@ -159,6 +159,16 @@ let () =
             hex_of_bytes nm ^ ":" ^ (match c.cd_info with None -> "-" | Some x -> hex_of_bytes x) ^ ":" ^ fl) bd' in
           "reused=" ^ (match ru with None -> "-" | Some x -> hex_of_bytes x) ^ " " ^ (if dirs = [] then "-" else String.concat "," dirs)) in
       Printf.printf "%s\t%s\n" id out
+    | id :: "FF" :: _ ->
+      (* a transfer that fails midway (process alive), then the retry, then Restore; the engine is
+         assumed to open half written directories *)
+      let v = n_of_int 7 and garbage = n_of_int 9 in
+      let s0 = { cs_dir = DAbsent; cs_marked = false } in
+      let s1 = prepare true v FFailed s0 in
+      let half = (match s1.cs_dir with DAbsent -> "absent" | _ -> if backup_ok true s1 then "ACCEPTED" else "refused") in
+      let s2 = prepare true v FOk s1 in
+      let rs = if not (backup_ok true s2) then "nobackup" else if int_of_n (restored_content garbage s2) = 7 then "exact" else "WRONG-content" in
+      Printf.printf "%s\tfirst=err half=%s second=ok restore=%s\n" id half rs
     | id :: "CB" :: _eng :: point :: _ ->
       (* a backup killed after k of its steps; the engine is assumed to open half written directories *)
       let v = n_of_int 7 and garbage = n_of_int 9 in
